@@ -141,3 +141,36 @@ Definition onat_eqb (a b : option nat) : bool :=
 Fixpoint failing_from27 (k : nat) (l : list bool) : list nat :=
   match l with [] => [] | b :: l' => (if b then [] else [k]) ++ failing_from27 (S k) l' end.
 Definition failing27 (l : list bool) : list nat := failing_from27 0 l.
+
+(* ------------------------------------------------------------------ EntityMeta._find_in_cache_ : lookup by primary key through entity e when the
+   identity map already holds an object of class cur for that key -- either loaded (cur is its real class) or an unloaded SEED created for
+   a reference typed cur (then the row says `real`).
+       if obj._discriminator_ is not None:                 (has_discr: the tree has a discriminator; a value such as 0 or '' counts)
+           if obj._subclasses_:
+               if not issubclass(entity, cls) and not issubclass(cls, entity): ObjectNotFound
+               if obj in seeds: obj._load_()               (the row is parsed; _get_from_identity_map_ refines the class)
+           if not isinstance(obj, entity): ObjectNotFound                                                                             *)
+Inductive found := Found (c : nat) | NotFound | ClassChangeError.
+
+Definition issub (s : schema) (a b : nat) : bool := (a =? b) || nmem b (all_bases s a).       (* issubclass(a, b) *)
+
+Definition find_in_cache (s : schema) (has_discr : bool) (e cur : nat) (seed : bool) (real : nat) : found :=
+  if has_discr then
+    let after : option (option nat) :=                       (* None = ObjectNotFound, Some None = class change error *)
+      match subclasses s cur with
+      | [] => Some (Some cur)
+      | _ => if negb (issub s e cur) && negb (issub s cur e) then None
+             else if seed then Some (refine s cur real) else Some (Some cur)
+      end in
+    match after with
+    | None => NotFound
+    | Some None => ClassChangeError
+    | Some (Some c) => if issub s c e then Found c else NotFound
+    end
+  else Found cur.
+
+(* what a lookup must give: the object with its creation class if that class is e or below, nothing otherwise *)
+Definition lookup_spec (s : schema) (e real : nat) : found := if issub s real e then Found real else NotFound.
+
+Definition found_eqb (a b : found) : bool :=
+  match a, b with Found x, Found y => x =? y | NotFound, NotFound => true | ClassChangeError, ClassChangeError => true | _, _ => false end.
